@@ -90,36 +90,32 @@ def _translate_decompose(fn: ast.FunctionDef) -> list[str]:
     if len(ib) != 1 or _u(ib[0]) != "results.extend(_decompose([g], count_fn, replace_fn))":
         raise Unsupported(f"{W}: expected `results.extend(_decompose([g], count_fn, replace_fn))`, found `{[_u(s) for s in ib]}`")
     pre = "full_reduce g0" if reduce_in_loop else "g0"
+    ARGS = "(G : Type) (count_fn : G -> nat) (replace_fn : G -> list G) (full_reduce : G -> G) (is_zero : G -> bool)"
     return [
-        "Section Decompose.",
-        "  Variable G : Type.",
-        "  Variable count_fn : G -> nat.",
-        "  Variable replace_fn : G -> list G.        (* gsum.graphs of replace_fn(graph.copy()) *)",
-        "  Variable full_reduce : G -> G.            (* zx.full_reduce(g, paramSafe=True), in place *)",
-        "  Variable is_zero : G -> bool.             (* g.scalar.is_zero *)",
-        "  (* state of a call: Some (results, pruned) -- `pruned` is a ghost record of the terms dropped by `continue` *)",
-        "  Definition dstate := option (list G * list G).",
-        "  Definition inner_step (rec : list G -> dstate) (st : dstate) (g0 : G) : dstate :=",
-        "    match st with",
-        "    | None => None",
-        "    | Some (results, pruned) =>",
-        f"        let g := {pre} in",
-        f"        if {prune} then Some (results, pruned ++ [g])",
-        "        else match rec [g] with Some (r, p) => Some (results ++ r, pruned ++ p) | None => None end",
-        "    end.",
-        "  Definition outer_step (rec : list G -> dstate) (st : dstate) (graph : G) : dstate :=",
-        "    match st with",
-        "    | None => None",
-        "    | Some (results, pruned) =>",
-        f"        if {keep_test} then Some (results ++ [graph], pruned)",
-        "        else fold_left (inner_step rec) (replace_fn graph) (Some (results, pruned))",
-        "    end.",
-        "  Fixpoint decompose (fuel : nat) (graphs : list G) : dstate :=",
-        "    match fuel with",
-        "    | O => None",
-        "    | S k => fold_left (outer_step (decompose k)) graphs (Some ([], []))",
-        "    end.",
-        "End Decompose.",
+        "(* G: graphs; count_fn / replace_fn (gsum.graphs of replace_fn(graph.copy())) / full_reduce (zx.full_reduce(g, paramSafe=True),",
+        "   in place) / is_zero (g.scalar.is_zero) are pyzx's.  State of a call: Some (results, pruned) -- `pruned` is a ghost",
+        "   record of the terms dropped by `continue`; None = out of fuel. *)",
+        "Definition dstate (G : Type) := option (list G * list G).",
+        f"Definition inner_step {ARGS} (rec : list G -> dstate G) (st : dstate G) (g0 : G) : dstate G :=",
+        "  match st with",
+        "  | None => None",
+        "  | Some (results, pruned) =>",
+        f"      let g := {pre} in",
+        f"      if {prune} then Some (results, pruned ++ [g])",
+        "      else match rec [g] with Some (r, p) => Some (results ++ r, pruned ++ p) | None => None end",
+        "  end.",
+        f"Definition outer_step {ARGS} (rec : list G -> dstate G) (st : dstate G) (graph : G) : dstate G :=",
+        "  match st with",
+        "  | None => None",
+        "  | Some (results, pruned) =>",
+        f"      if {keep_test} then Some (results ++ [graph], pruned)",
+        "      else fold_left (inner_step G count_fn replace_fn full_reduce is_zero rec) (replace_fn graph) (Some (results, pruned))",
+        "  end.",
+        f"Fixpoint decompose {ARGS} (fuel : nat) (graphs : list G) : dstate G :=",
+        "  match fuel with",
+        "  | O => None",
+        "  | S k => fold_left (outer_step G count_fn replace_fn full_reduce is_zero (decompose G count_fn replace_fn full_reduce is_zero k)) graphs (Some ([], []))",
+        "  end.",
         "",
     ]
 
@@ -201,24 +197,22 @@ def translate(repo_src: Path) -> str:
         "Inductive pass_kind := PassU3 | PassMagic.",
         "Definition find_stab_passes : list pass_kind := [" + "; ".join("PassU3" if k == "u3" else "PassMagic" for k in chain) + "].",
         f"Definition find_stab_reduces_first : bool := {'true' if reduce_first else 'false'}.",
-        "Section FindStab.",
-        "  Variable G : Type.",
-        "  Variables (u3_count tcount : G -> nat) (replace_u3 replace_magic : G -> list G) (full_reduce : G -> G) (is_zero : G -> bool).",
-        "  Definition run_pass (fuel : nat) (k : pass_kind) (st : option (list G * list G)) : option (list G * list G) :=",
-        "    match st with",
-        "    | None => None",
-        "    | Some (graphs, pruned) =>",
-        "        match (match k with",
-        "               | PassU3 => decompose G u3_count replace_u3 full_reduce is_zero fuel graphs",
-        "               | PassMagic => decompose G tcount replace_magic full_reduce is_zero fuel graphs end) with",
-        "        | Some (r, p) => Some (r, pruned ++ p)",
-        "        | None => None",
-        "        end",
-        "    end.",
-        "  Definition find_stab (fuel : nat) (graph : G) : option (list G * list G) :=",
-        "    fold_left (fun st k => run_pass fuel k st) find_stab_passes",
-        "      (Some ([if find_stab_reduces_first then full_reduce graph else graph], [])).",
-        "End FindStab.",
+        "Definition run_pass (G : Type) (u3_count tcount : G -> nat) (replace_u3 replace_magic : G -> list G) (full_reduce : G -> G) (is_zero : G -> bool)",
+        "    (fuel : nat) (k : pass_kind) (st : option (list G * list G)) : option (list G * list G) :=",
+        "  match st with",
+        "  | None => None",
+        "  | Some (graphs, pruned) =>",
+        "      match (match k with",
+        "             | PassU3 => decompose G u3_count replace_u3 full_reduce is_zero fuel graphs",
+        "             | PassMagic => decompose G tcount replace_magic full_reduce is_zero fuel graphs end) with",
+        "      | Some (r, p) => Some (r, pruned ++ p)",
+        "      | None => None",
+        "      end",
+        "  end.",
+        "Definition find_stab (G : Type) (u3_count tcount : G -> nat) (replace_u3 replace_magic : G -> list G) (full_reduce : G -> G) (is_zero : G -> bool)",
+        "    (fuel : nat) (graph : G) : option (list G * list G) :=",
+        "  fold_left (fun st k => run_pass G u3_count tcount replace_u3 replace_magic full_reduce is_zero fuel k st) find_stab_passes",
+        "    (Some ([if find_stab_reduces_first then full_reduce graph else graph], [])).",
         "",
     ]
     return "\n".join(lines)
